@@ -1,0 +1,111 @@
+//! Read-only list of what a connection still owes its peer or its application (verification hook for the
+//! quiescence oracle of the system simulator): frames queued but not yet written into a packet, stream data
+//! buffered but not yet sent, the state an application blocked on a stream event depends on.
+use super::super::Connection;
+use crate::packet::SpaceId;
+
+/// One live send stream
+#[derive(Debug, Clone, PartialEq, Eq)]
+pub struct SendOb {
+    pub id: u64,
+    /// bytes accepted from the application
+    pub offset: u64,
+    /// the peer's limit for this stream
+    pub max_data: u64,
+    /// data accepted from the application (or declared lost) that has not been written into a packet
+    pub unsent: bool,
+    pub fin_pending: bool,
+    /// a write failed for want of credit and no `Writable` has been issued since
+    pub connection_blocked: bool,
+    /// neither finished nor reset
+    pub ready: bool,
+    pub reset: bool,
+    pub stopped: bool,
+}
+
+#[derive(Debug, Clone, Default, PartialEq, Eq)]
+pub struct StreamsOb {
+    pub send: Vec<SendOb>,
+    /// bytes a write could be given right now at connection level (peer credit and send window)
+    pub write_limit: u64,
+    pub events_queued: usize,
+    /// `Opened` owed to the application, per direction
+    pub opened_flag: [bool; 2],
+    pub sent_max_remote: [u64; 2],
+    pub max_concurrent_remote: [u64; 2],
+    /// ids on the list of streams to be told `Writable`
+    pub blocked_list: Vec<u64>,
+}
+
+#[derive(Debug, Clone, Default, PartialEq, Eq)]
+pub struct Oblig {
+    /// frames queued for (re)transmission, per packet number space
+    pub queued: [Vec<String>; 3],
+    pub streams: StreamsOb,
+    /// application datagrams queued
+    pub dgrams_queued: usize,
+}
+
+impl Connection {
+    /// What is queued but unsent, and what blocked applications wait for (verification hook, read-only)
+    pub fn verif_oblig(&self) -> Oblig {
+        let mut o = Oblig::default();
+        for (i, id) in [SpaceId::Initial, SpaceId::Handshake, SpaceId::Data].into_iter().enumerate() {
+            let sp = &self.spaces[id];
+            let p = &sp.pending;
+            let q = &mut o.queued[i];
+            if p.max_data {
+                q.push("MAX_DATA".into());
+            }
+            for d in 0..2 {
+                if p.max_stream_id[d] {
+                    q.push(format!("MAX_STREAMS:{}", if d == 0 { "bi" } else { "uni" }));
+                }
+            }
+            for (s, _) in &p.reset_stream {
+                q.push(format!("RESET_STREAM:{}", s.0));
+            }
+            for s in &p.stop_sending {
+                q.push(format!("STOP_SENDING:{}", s.id.0));
+            }
+            let mut msd: Vec<u64> = p.max_stream_data.iter().filter(|s| self.streams.can_send_flow_control(**s)).map(|s| s.0).collect();
+            msd.sort_unstable();
+            for s in msd {
+                q.push(format!("MAX_STREAM_DATA:{s}"));
+            }
+            if !p.crypto.is_empty() {
+                q.push(format!("CRYPTO:{}", p.crypto.len()));
+            }
+            if !p.new_cids.is_empty() {
+                q.push(format!("NEW_CONNECTION_ID:{}", p.new_cids.len()));
+            }
+            if !p.retire_cids.is_empty() {
+                q.push(format!("RETIRE_CONNECTION_ID:{}", p.retire_cids.len()));
+            }
+            if p.ack_frequency {
+                q.push("ACK_FREQUENCY".into());
+            }
+            if p.handshake_done {
+                q.push("HANDSHAKE_DONE".into());
+            }
+            if p.new_tokens.iter().any(|a| *a == self.path.remote) {
+                q.push("NEW_TOKEN".into());
+            }
+            if sp.ping_pending {
+                q.push("PING".into());
+            }
+            if sp.loss_probes > 0 {
+                q.push(format!("loss-probes:{}", sp.loss_probes));
+            }
+        }
+        if self.path.challenge_pending {
+            o.queued[2].push("PATH_CHALLENGE".into());
+        }
+        if !self.path_responses.is_empty() {
+            o.queued[2].push("PATH_RESPONSE".into());
+        }
+        o.streams = self.streams.verif_oblig();
+        o.dgrams_queued = self.datagrams.outgoing.len();
+        o
+    }
+}
